@@ -83,6 +83,7 @@ def _arm_of(ctx, f, nd, how):
 
 def r_conv(ctx):
     run = ctx.run
+    _r_conv_tail(ctx)
     run.rule('R-CONV', "for bit_to_number / dna_to_number (string and integer path): accumulation acc*R + d over the "
                        "sequence in forward order with R = 2 / len(ALPHA); for number_to_bit / number_to_dna (string and "
                        "integer path): repeated division by R, digit inserted at the front, left pad with 0 / ALPHA[0] to "
@@ -533,6 +534,51 @@ def r_conv(ctx):
                     run.check(t[2] == ('slice', NONE, width, NONE), 'R-CONV', f, 'longer-arm:exact-length', r.lineno,
                               'truncated to bit_length items', 'the longer arm returns %s' % show(t)[:60],
                               inputs='values that do not fit the width')
+
+
+def _r_conv_tail(ctx):
+    r_digit_base(ctx)
+
+
+def r_digit_base(ctx):
+    """the decimal-string helpers take a single-digit `base`: every call site in the package passes one"""
+    run = ctx.run
+    run.rule('R-DIGITBASE', "calculus_addition / _subtraction / _multiplication / _division are digit-serial in a ONE-digit operand "
+                            "`base` (documented): no call site in the package passes str() of a power with a variable exponent or of a "
+                            "value accumulated over several digits")
+    n = 0
+    for fq in sorted(ctx.reachable()):
+        f = ctx.p.func(fq)
+        for nd, c, callee, q in ctx.calls().get(fq, []):
+            if not (q and q.split('.')[-1] in ('calculus_addition', 'calculus_subtraction', 'calculus_multiplication', 'calculus_division')):
+                continue
+            t = f.term(c, nd)
+            b = call_arg(t, 1, 'base')
+            if b is None:
+                continue
+            n += 1
+            x = b
+            while is_call(x, 'builtins.str', 'builtins.int') and x[2]:
+                x = x[2][0]
+            wit = None
+            for y in walk_term(x):
+                if y[0] == 'bin' and y[1] == '**' and y[3][0] != 'c' and not (y[2][0] == 'c' and y[2][1] in (0, 1)):
+                    wit = 'the power %s (unbounded exponent)' % show(y)[:40]
+            if wit is None and x[0] == 'v' and isinstance(x[2], tuple):
+                for di in x[2]:
+                    d = f.defs[di]
+                    if d.kind == 'aug' and isinstance(d.extra, (ast.Mult, ast.Add)) and f.nodes[d.node].loops:
+                        wit = 'the value `%s`, accumulated over several digits in the loop at line %d' % (x[1], f.nodes[d.node].lineno)
+                    elif d.kind == 'assign' and d.value is not None and f.nodes[d.node].loops and \
+                            any(isinstance(n_, ast.Name) and n_.id == x[1] for n_ in ast.walk(d.value)) and \
+                            any(isinstance(n_, ast.Mult) for n_ in ast.walk(d.value)):
+                        wit = 'the value `%s`, accumulated over several digits in the loop at line %d' % (x[1], f.nodes[d.node].lineno)
+            if wit:
+                run.refute('R-DIGITBASE', f, 'single-digit-operand', nd.lineno,
+                           '%s passes %s as `base` of %s: the helper handles one decimal digit per step and is wrong (drops or misplaces '
+                           'carries) for operands of two or more digits' % (f.name, wit, q.split('.')[-1]),
+                           inputs='long inputs: every word after the first whose value needs two or more decimal digits')
+    run.floor('R-DIGITBASE', 'call sites of the decimal-string helpers', n, 6)
 
 
 # ----------------------------------------------------------------------------------------------
@@ -1073,7 +1119,8 @@ def r_max(ctx):
     if not okc and not witc:
         # where(S == max(S)) gives (rows, columns) of ALL maxima: a column taken from it is not tied to the chosen row
         for x in walk_term(c0):
-            if x[0] == 'item' and x[2] == 1 and is_call(x[1], 'numpy.where', 'numpy.nonzero') and x[1][2] and x[1][2][0][0] == 'cmp' \
+            second = (x[0] == 'item' and x[2] == 1) or (x[0] == 'sub' and x[2] == ('c', 1))
+            if second and any(is_call(y, 'numpy.where', 'numpy.nonzero') and y[2] and y[2][0][0] == 'cmp' for y in walk_term(x[1])) \
                     and not any(y == strip_int(row) for y in walk_term(c0)):
                 witc = True
     _tri(run, okc, witc, 'R-MAX', f, 'column=argmax(scores[row])', nd.lineno, 'column is the argmax of the chosen row',
